@@ -6,6 +6,8 @@ Driver for the `offreader` correspondence family (C16).
 
   cap <idx> <N|-|d> <mw 0|1> [<outbound capacity>]  new connection: cap (`-` = unlimited), router middleware or not
   reconnect <idx>                                 the client drops the connection (handlers stay parked) and opens a new one
+  hook <idx> begin|end                            the exits in between happen inside the refusal of the arrival in between (no observation)
+  race <idx> <rounds> <extra>                     unobserved arrivals/exits ending with nothing running (no observation)
   burst <idx> begin|end                          the arrivals in between are written in one piece (no observation)
   arrive <idx> <id> <inline|blocking> <notify 0|1> <ec>
       -> <idx> admitted <id> ; running N | <idx> resp <id> <ec> ; running N | <idx> dropped ; running N
@@ -59,6 +61,16 @@ def step (d : DSt) (ws : List String) : DSt × String :=
   | ["cap", _idx, c, mw, ocap] =>
     -- the outbound queue's capacity is not part of the model: a full queue only delays the reader
     if ocap.isNat then (match fresh c mw with | some d' => (d', "") | none => (d, "bad-op")) else (d, "bad-op")
+  | ["hook", _idx, "begin"] => (d, "")    -- the exits that follow happen inside the refusal that follows: same events
+  | ["hook", _idx, "end"] => (d, "")
+  | ["race", _idx, rounds, extra] =>
+    -- an unobserved interleaving of arrivals and exits on this connection that ends with every handler
+    -- exited: by `all_exited_running_zero` the state then has nothing running and no permit taken
+    if rounds.isNat && extra.isNat then
+      let ids := d.st.running.map (·.id)
+      let conns := ids.foldl (fun cs id => sstep f cf d.setting cs (.ev d.cur (.exit id .ret))) d.conns
+      ({ d with conns := conns }, "")
+    else (d, "bad-op")
   | ["burst", _idx, "begin"] => (d, "")   -- how the arrivals reach the socket; same events
   | ["burst", _idx, "end"] => (d, "")
   | ["reconnect", _idx] =>
